@@ -114,7 +114,15 @@ def _wrap(data, mode):
     if mode == 1:
         return bytearray(data)
     if mode == 2:
-        return memoryview(data) if len(data) % 2 else memoryview(bytearray(data))
+        k = len(data) % 4
+        if k == 0:
+            return memoryview(bytearray(data))
+        if k == 1:
+            return memoryview(bytearray(data)).cast("b")            # signed char view
+        if k == 2:
+            import array
+            return array.array("b", [x - 256 if x > 127 else x for x in data])
+        return memoryview(data)
     return data
 
 
